@@ -13,6 +13,8 @@ structure Conn where
       signal is `Frame.other` for the other one -/
   o : C := {}
   held : Bool := false
+  /-- only the unregistration requests of the connection are held -/
+  heldUnreg : Bool := false
   deferred : List Deferred := []
 
 structure St where
@@ -26,6 +28,7 @@ partial def drain (c : C) : C := if c.delivered < c.log.length then drain (deliv
 /-- everything that can happen without the harness does happen (the harness waits for quiescence) -/
 def settle (k : Conn) : Conn :=
   if k.held then { k with c := drain k.c } else
+  if k.heldUnreg then { k with c := drain (srvRegister k.c) } else
   let c1 := drain (srvUnregister (srvRegister k.c))
   { k with c := c1 }
 
@@ -93,10 +96,14 @@ def run (st : St) (args : List String) : St × String :=
     match st.conns[k.toNat!]? with
     | some c => (setConn st k.toNat! { c with held := true }, "ok")
     | none => (st, "bad-op")
+  | ["sg.holdunreg", k] =>
+    match st.conns[k.toNat!]? with
+    | some c => (setConn st k.toNat! { c with heldUnreg := true }, "ok")
+    | none => (st, "bad-op")
   | ["sg.release", k] =>
     match st.conns[k.toNat!]? with
     | some c =>
-      let st1 := setConn st k.toNat! (settle { c with held := false })
+      let st1 := setConn st k.toNat! (settle { c with held := false, heldUnreg := false })
       -- a cancel that was waiting for its unregistration to go out completes now
       let st2 := match st1.conns[k.toNat!]? with
         | some k1 => setConn st1 k.toNat! { k1 with c := (List.range k1.c.subs.length).foldl (fun c i => leave c i) k1.c }
